@@ -67,6 +67,17 @@ KCall(r) ==
                     LET ab == AsBuiltBool(r.canon, r.ps) IN
                     IF IsErr(ab) THEN IsE(r.outs[f[3]].res) ELSE WEq(r.outs[f[3]].res, ab)}
 
+\* every alias answers like its named form under TryEval with one operand unavailable (same path)
+FTryAlias(r) ==
+  {f \in {<<"C18", r.id, k, 0, sig>> : k \in Idx(r.outs), sig \in {"panic", "alias-tryeval"}} :
+     LET o == r.outs[f[3]].res IN
+     CASE f[5] = "panic" -> o.t = "p"
+       [] f[5] = "alias-tryeval" -> o.t \notin {"p", "ce"} /\
+            \E j \in Idx(r.outs) : j < f[3] /\ r.outs[j].res.t \notin {"p", "ce"} /\ r.outs[j].path = r.outs[f[3]].path /\
+                                    ~(IF IsE(o) THEN IsE(r.outs[j].res)
+                                      ELSE IF o.t = "d" \/ r.outs[j].res.t = "d" THEN o.t = r.outs[j].res.t
+                                      ELSE WEq(o, r.outs[j].res))}
+
 FDivMod(r) ==
   LET mk(sig) == {<<"C18", r.id, 0, 0, sig>>} IN
   IF r.q.t = "p" \/ r.r.t = "p" THEN mk("panic")
@@ -129,6 +140,7 @@ FDate(r) ==
 
 Findings(r) ==
   CASE r.kind = "call" -> FCall(r) [] r.kind = "divmod" -> FDivMod(r) [] r.kind = "fold" -> FFold(r)
+    [] r.kind = "tryalias" -> FTryAlias(r)
     [] r.kind = "overlap" -> FOverlap(r) [] r.kind = "in" -> FIn(r)
     [] r.kind = "ver" -> FVer(r) [] r.kind = "date" -> FDate(r) [] OTHER -> {}
 Known(r) == CASE r.kind = "call" -> KCall(r) [] r.kind = "overlap" -> KOverlap(r) [] OTHER -> {}
@@ -140,9 +152,10 @@ NonTriv(r) ==
     [] r.kind = "overlap" -> IF IsList(r.a) /\ IsList(r.b) /\ (Len(r.a.v) + Len(r.b.v) >= 99 \/ r.a.v = <<>> \/ r.b.v = <<>>)
                              THEN 2 * Len(r.outs) ELSE 0
     [] r.kind = "in" -> Len(r.outs)
+    [] r.kind = "tryalias" -> Len(r.outs)
     [] r.kind = "ver" -> 1 [] r.kind = "date" -> 1 [] OTHER -> 0
 Judged(r) ==
-  CASE r.kind \in {"call", "in"} -> Len(r.outs) [] r.kind = "overlap" -> 2 * Len(r.outs) [] OTHER -> 1
+  CASE r.kind \in {"call", "in", "tryalias"} -> Len(r.outs) [] r.kind = "overlap" -> 2 * Len(r.outs) [] OTHER -> 1
 
 Init == l = 1 /\ judged = 0 /\ nontriv = 0 /\ skipped = 0 /\ drift = 0 /\ found = 0
 Next ==
